@@ -28,6 +28,9 @@ Graphs == [NameSet -> Bodies]
 NoGraph == [kind |-> "none", use |-> "", gr |-> <<>>]
 
 Scanners == {"sqf", "cfg"}
+\* what the transcribed code does on an input: eof | invalid | throw | oob (leaves the buffer) | hang
+Outcome(w, i) == LET r == Scan(w, i, CodeDevs)
+                 IN IF r.st.mode # "done" THEN "hang" ELSE IF ~r.bnd THEN "oob" ELSE r.st.diag
 NoCheck(kind) == IF kind = "macro" THEN "UnboundedMacroRecursion" \in Dev ELSE "IncludeCycleUnchecked" \in Dev
 
 Init == inp = <<>> /\ g = NoGraph
@@ -37,8 +40,8 @@ LexNext == /\ g.kind = "none"
            /\ \E s \in Alphabet :
                 /\ inp' = Append(inp, s)
                 /\ (Emit => PrintT("OUT " \o ToJson([kind |-> "sym", syms |-> inp',
-                                                      ds |-> Scan("sqf", inp', CodeDevs).st.dev,
-                                                      dc |-> Scan("cfg", inp', CodeDevs).st.dev])))
+                                                      ds |-> Scan("sqf", inp', CodeDevs).st.dev, os |-> Outcome("sqf", inp'),
+                                                      dc |-> Scan("cfg", inp', CodeDevs).st.dev, oc |-> Outcome("cfg", inp')])))
            /\ UNCHANGED g
 
 ExpNext == /\ g.kind = "none" /\ inp = <<>>
